@@ -747,7 +747,7 @@ func (r *Reader) newBlockIter(b *block, bReleaser util.Releaser, slice *util.Ran
 				bi.offsetRealStart = b.restartsOffset
 			}
 		}
-		if slice.Limit != nil {
+		if slice.Limit != nil && bi.riStart < b.restartsLen {
 			if bi.Seek(slice.Limit) && (!inclLimit || bi.Next()) {
 				bi.offsetLimit = bi.prevOffset
 				bi.riLimit = bi.restartIndex + 1
